@@ -1,0 +1,109 @@
+//! Verification hooks: shrex response codecs, status reader, EDS notifications and the pool
+//! tracker. Adds no behaviour.
+
+use std::io;
+use std::sync::Arc;
+use std::task::{Context, Poll};
+
+use celestia_types::eds::{EdsId, ExtendedDataSquare};
+use celestia_types::hash::Hash;
+use celestia_types::namespace_data::{NamespaceData, NamespaceDataId};
+use celestia_types::row::{Row, RowId};
+use celestia_types::sample::{Sample, SampleId};
+use celestia_types::{AppVersion, DataAvailabilityHeader};
+use futures::AsyncRead;
+use libp2p::PeerId;
+
+use super::codec::ResponseCodec;
+use super::pool_tracker::{EdsNotification, PoolTracker};
+use super::Event;
+use crate::store::Store;
+
+macro_rules! codec_fns {
+    ($decode:ident, $encode:ident, $ty:ty, $id:ty) => {
+        /// `ResponseCodec::decode_and_verify` for this container.
+        pub fn $decode(
+            raw: &[u8],
+            id: &$id,
+            dah: &DataAvailabilityHeader,
+            app_version: AppVersion,
+        ) -> Result<$ty, String> {
+            <$ty as ResponseCodec>::decode_and_verify(raw, id, dah, app_version)
+                .map_err(|e| e.to_string())
+        }
+
+        /// `ResponseCodec::encode` for this container.
+        pub fn $encode(v: &$ty) -> Vec<u8> {
+            <$ty as ResponseCodec>::encode(v)
+        }
+    };
+}
+
+codec_fns!(decode_row, encode_row, Row, RowId);
+codec_fns!(decode_sample, encode_sample, Sample, SampleId);
+codec_fns!(decode_eds, encode_eds, ExtendedDataSquare, EdsId);
+codec_fns!(decode_namespace_data, encode_namespace_data, NamespaceData, NamespaceDataId);
+
+/// The shrex client's status-frame reader.
+pub async fn read_status<T>(io: &mut T) -> io::Result<i32>
+where
+    T: AsyncRead + Unpin + Send,
+{
+    super::client::verif_client::read_status(io).await
+}
+
+/// `EdsNotification::deserialize_and_validate`: (height, data hash) or the error text.
+pub fn eds_notification(data: &[u8]) -> Result<(u64, Hash), String> {
+    EdsNotification::deserialize_and_validate(data)
+        .map(|n| (n.height, n.data_hash))
+        .map_err(|e| e.to_string())
+}
+
+/// Events emitted by the pool tracker.
+#[derive(Debug, Clone, PartialEq, Eq)]
+#[allow(missing_docs)]
+pub enum PoolEvent {
+    SchedulePendingRequests,
+    AddPeers(Vec<PeerId>),
+    BlockPeers(Vec<PeerId>),
+}
+
+/// `PoolTracker` wrapper.
+pub struct Pools<S>(PoolTracker<S>);
+
+#[allow(missing_docs)]
+impl<S: Store + 'static> Pools<S> {
+    pub fn new(store: Arc<S>) -> Self {
+        Pools(PoolTracker::new(store))
+    }
+
+    pub fn add_peer_for_hash(&mut self, peer: PeerId, data_hash: Hash, height: u64) {
+        self.0.add_peer_for_hash(peer, data_hash, height)
+    }
+
+    pub fn get_pool(&self, height: u64) -> Result<Vec<PeerId>, String> {
+        self.0
+            .get_pool(height)
+            .map(|it| it.copied().collect())
+            .map_err(|e| e.to_string())
+    }
+
+    pub fn remove_peer(&mut self, peer: &PeerId) {
+        self.0.remove_peer(peer)
+    }
+
+    pub fn poll(&mut self, cx: &mut Context<'_>) -> Poll<Option<PoolEvent>> {
+        self.0.poll(cx).map(|ev| {
+            ev.map(|ev| match ev {
+                Event::SchedulePendingRequests => PoolEvent::SchedulePendingRequests,
+                Event::AddPeers(p) => PoolEvent::AddPeers(p),
+                Event::BlockPeers(p) => PoolEvent::BlockPeers(p),
+            })
+        })
+    }
+}
+
+/// Forces the lazily initialised statics of this module (see `crate::verif::warm_statics`).
+pub fn warm_statics() {
+    let _ = *super::EMPTY_EDS_DATA_HASH;
+}
